@@ -31,7 +31,9 @@ def strip_comment(line):
         if c == '"':
             quote = not quote
         elif not quote:
-            if c in "({":
+            if c == "{" and (line[i + 1:].strip() == "" or line[i + 1:].lstrip().startswith("#")):
+                pass        # the brace that opens a block (nothing but a comment may follow it): not an alternation
+            elif c in "({":
                 depth += 1
             elif c in ")}":
                 depth = max(0, depth - 1)
